@@ -175,23 +175,26 @@ def fitsCheck (cw : Char → Nat) (raws : List (Char × Attr)) (cells : List Cel
   | some rest => allBlank rest
   | none => false
 
-/-- clipped: `k1 ≤ 3` dots, a contiguous run `raws[a, b)`, `k2 ≤ 2` dots, the rest blank; dots only on a side
-    where something is cut -/
-def clippedCheck (cw : Char → Nat) (base hi : Attr) (raws : List (Char × Attr)) (cells : List Cell) : Bool :=
+/-- clipped: `k1 ≤ 3` dots, a contiguous run `raws[a, b)`, `k2 ≤ 2` dots, the rest blank; dots on a side exactly when
+    something is cut there (`strict`); with `strict = false` a cut side may go unmarked (used only to classify a failure) -/
+def clippedCheckWith (strict : Bool) (cw : Char → Nat) (base hi : Attr) (raws : List (Char × Attr)) (cells : List Cell) : Bool :=
   (List.range 4).any fun k1 =>
     match eatDots base hi k1 cells with
     | none => false
     | some rest =>
       (List.range (raws.length + 1)).any fun a =>
-        (k1 = 0 || a > 0) &&
+        (k1 = 0 || a > 0) && (!strict || k1 > 0 || a = 0) &&
         (List.range (raws.length - a + 1)).any fun n =>
           match eatSeq cw ((raws.drop a).take n) rest with
           | none => false
           | some rest2 =>
             (List.range 3).any fun k2 =>
-              (k2 = 0 || a + n < raws.length) &&
+              (k2 = 0 || a + n < raws.length) && (!strict || k2 > 0 || a + n = raws.length) &&
               match eatDots base hi k2 rest2 with
               | none => false
               | some rest3 => allBlank rest3
+
+def clippedCheck (cw : Char → Nat) (base hi : Attr) (raws : List (Char × Attr)) (cells : List Cell) : Bool :=
+  clippedCheckWith true cw base hi raws cells
 
 end SkimModel.Draw
